@@ -59,7 +59,7 @@ func newEventFromUntrustedJSONV3(eventJSON []byte, roomVersion IRoomVersion) (PD
 		}
 	}
 
-	if err = json.Unmarshal(eventJSON, &res); err != nil {
+	if err = json.Unmarshal(dropCaseVariantKeys(eventJSON), &res); err != nil {
 		return nil, err
 	}
 
